@@ -20,7 +20,7 @@ def main():
         print('==', fn, r['status'], r.get('reason') or '', 'paths', r.get('paths'),
               'has_spec', r.get('has_spec'), '%.1fs' % r.get('wall_s', 0))
         if r.get('post'):
-            print('   paths:', r['post'].get('paths'), 'calls:', sorted(set(r['post'].get('calls', []))))
+            print('   paths:', r['post'].get('paths'), 'calls:', r['post'].get('calls'))
         n = 0
         for o in r['obligations']:
             n += 1
